@@ -1,6 +1,6 @@
 /-
 Generation-independent lemmas for the TL framing source theorems (`c14_src_*`, `c19_src_*`): the translator's bytes
-built-ins (`PyBytes.lean`) against the little-endian helpers of Spec/Tl.lean and the slices of the TL models.
+built-ins (`PyBytes.lean`, `PyBytes2.lean`) against the little-endian helpers of Spec/Tl.lean and the slices of the TL models.
 Nothing here mentions a `Generated.*` definition.
 -/
 import TonVerif.Proofs.SrcArith2
